@@ -142,6 +142,11 @@ Produce(e) ==
 (* 1 - hash(f) mod P; cached = recomputed; at a small prime the defining    *)
 (* sum is recomputed natively.                                              *)
 (***************************************************************************)
+(* the cached hash is the finite-field count that the fold computes with the same weights (C11: cached = recomputed; and C07: it IS a
+   weighted model count, delivered through the per-node cache) *)
+CachedIsCount(e) ==
+  /\ (IF "climbs" \in DOMAIN e THEN e.climbs = e.limbs ELSE TRUE)
+  /\ (IF "nclimbs" \in DOMAIN e THEN e.nclimbs = e.nlimbs ELSE TRUE)                     \* cached hash of the negation
 HashOK(e) ==
   LET f == D(e, 1) IN
   IF e.p = "32749"
@@ -154,8 +159,7 @@ HashOK(e) ==
           /\ (s = <<1>> \/ s = LAdd(P, <<1>>))                       \* h + h' = 1 (mod P)
           /\ (IF <<e.p, f>> \in DOMAIN hashes THEN hashes[<<e.p, f>>] = e.limbs ELSE TRUE)
           /\ (IF <<e.p, Neg(f)>> \in DOMAIN hashes THEN hashes[<<e.p, Neg(f)>>] = e.nlimbs ELSE TRUE)
-          /\ (IF "climbs" \in DOMAIN e THEN e.climbs = e.limbs ELSE TRUE)
-          /\ (IF "nclimbs" \in DOMAIN e THEN e.nclimbs = e.nlimbs ELSE TRUE)                     \* cached hash of the negation
+          /\ CachedIsCount(e)
 HashUpd(e) ==
   IF e.p = "32749" THEN hashes
   ELSE LET f == D(e, 1) IN (<<e.p, f>> :> e.limbs) @@ (<<e.p, Neg(f)>> :> e.nlimbs) @@ hashes
@@ -203,7 +207,7 @@ QueryOK(e) ==
                             ELSE UWmc(e.sr, e.p, f, ord, e.w, WX(e.wexp, nvars)), nvars * e.wexp)
          /\ ("den" \in DOMAIN e) => e.den = 1
          /\ ("tail0" \in DOMAIN e) => e.tail0)
-    [] e.ev = "semhash" -> Req("C11", HashOK(e))
+    [] e.ev = "semhash" -> Req("C11", HashOK(e)) /\ Req("C07", e.p = "32749" \/ CachedIsCount(e))
     [] e.ev \in {"mmap", "meu", "bb"} -> Req("C12", OptOK(e))
     [] e.ev \in {"topvar", "mc", "wmcr", "wmcc", "wmcp", "json", "cnt", "sddpipe", "tdpipe", "cmisc"} -> TRUE     \* C ABI queries: judged by the twin only
     [] e.ev = "bfold" -> TRUE                                                        \* purity (C10) through FreshAgrees / dirty; the value: BFoldDrift
